@@ -189,6 +189,11 @@ def run(chk):
         "mixed": (SPEC, [None, {"h": True}, {"g": False, "h": True}]),
         "parity": ({"a": ("input", []), "b": ("input", []), "c": ("input", []), "g": ("xnor", ["a", "b", "c"]), "o": ("or", ["g", "a"])}, [None, {"o": True}, {"g": True, "o": False}]),
     }
+    # wide sampling sets (the `c ind` line may be wrapped or built in chunks): only the set / header / clause rules apply
+    for w in (10, 11, 12, 23):
+        wspec = {f"i{j}": ("input", []) for j in range(w)}
+        wspec["g"] = ("nor", [f"i{j}" for j in range(w)])
+        specs[f"wide{w}"] = (wspec, [None, {"g": True}])
     for sname, (spec, asms) in specs.items():
         for asm in asms:
             cc, types, fanin = circuit_sp(spec)
@@ -216,13 +221,18 @@ def run(chk):
             dimacs = files[0].data if files else ""
             lines = [l for l in dimacs.split("\n") if l.strip()]
             ind = None
+            ind_bad = False
             header = None
             clauses = []
             bad_line = None
             for l in lines:
                 if l.startswith("c ind"):
                     toks = l.split()[2:]
-                    ind = [int(t) for t in toks[:-1]] if toks and toks[-1] == "0" else None
+                    part = [int(t) for t in toks[:-1]] if toks and toks[-1] == "0" else None
+                    if part is None:
+                        ind_bad = True
+                    else:
+                        ind = (ind or []) + part
                 elif l.startswith("p cnf"):
                     header = tuple(int(x) for x in l.split()[2:4])
                 elif l.startswith("c"):
@@ -242,7 +252,7 @@ def run(chk):
                     ref.append([variables._ids[k_]] if val else [-variables._ids[k_]])
             spn = sorted(cc.startpoints())
             want_ind = sorted(variables._ids[n] for n in spn)
-            chk.ob("C08.D.sampling-set", f"approx_model_count::{tag}", ind is not None and sorted(ind) == want_ind and len(ind) == len(set(ind)), file=FILE, func="approx_model_count", line=fa.node.lineno,
+            chk.ob("C08.D.sampling-set", f"approx_model_count::{tag}", ind is not None and not ind_bad and sorted(ind) == want_ind and len(ind) == len(set(ind)), file=FILE, func="approx_model_count", line=fa.node.lineno,
                    fact={"ind": ind, "startpoints": spn}, expect=want_ind)
             nv = max([abs(l) for cl in clauses for l in cl] or [0])
             chk.ob("C08.D.header", f"approx_model_count::{tag}", header is not None and header[1] == len(clauses) and header[0] >= nv and bad_line is None, file=FILE, func="approx_model_count", line=fa.node.lineno,
